@@ -45,6 +45,8 @@ const (
 	c08KMapInd = "known:map-indirect-slot-size"
 	c08KStdPad = "known:wasm-stdsizes-nested-tail-padding"
 	c08KPtrB   = "known:ptrbytes-pointer-field-not-last"
+	c08KRecur  = "known:recursive-named-func-lowered-raw"
+	c08KAlias  = "known:alias-func-extra-size-lost"
 )
 
 // ---------------------------------------------------------------- type grammar
@@ -306,6 +308,51 @@ func c08Has8(t types.Type) bool {
 	return false
 }
 
+// c08Str prints a type with named/alias types expanded once (names of generated types carry no information).
+func c08Str(t types.Type) string {
+	seen := map[types.Type]bool{}
+	var defs []string
+	q := func(*types.Package) string { return "" }
+	var walk func(t types.Type)
+	walk = func(t types.Type) {
+		switch u := t.(type) {
+		case *types.Alias:
+			if !seen[u] {
+				seen[u] = true
+				defs = append(defs, u.Obj().Name()+" = alias of "+types.TypeString(types.Unalias(u), q))
+				walk(types.Unalias(u))
+			}
+		case *types.Named:
+			if !seen[u] {
+				seen[u] = true
+				defs = append(defs, u.Obj().Name()+" = "+types.TypeString(u.Underlying(), q))
+				walk(u.Underlying())
+			}
+		case *types.Pointer:
+			walk(u.Elem())
+		case *types.Slice:
+			walk(u.Elem())
+		case *types.Array:
+			walk(u.Elem())
+		case *types.Chan:
+			walk(u.Elem())
+		case *types.Map:
+			walk(u.Key())
+			walk(u.Elem())
+		case *types.Struct:
+			for i := 0; i < u.NumFields(); i++ {
+				walk(u.Field(i).Type())
+			}
+		}
+	}
+	walk(t)
+	s := types.TypeString(t, q)
+	if len(defs) > 0 {
+		s += "  where " + strings.Join(defs, "; ")
+	}
+	return s
+}
+
 func c08Skeleton(t types.Type) string {
 	s := types.TypeString(t, func(*types.Package) string { return "" })
 	return c08reNum.ReplaceAllString(s, "N")
@@ -449,7 +496,7 @@ func (tg *c08Target) newPkg() {
 
 // ---- L model (port of the C-like layout rule with the target's LLVM ABI alignments); a64
 // parameter lets the same code give the "natural alignment" table abi.Builder.Align uses.
-func (tg *c08Target) model(t types.Type, a64 int64, trail bool) (size, al int64, offs []int64) {
+func (tg *c08Target) model(t types.Type, a64 int64, fw int64) (size, al int64, offs []int64) {
 	w := tg.word
 	switch u := c08Under(t).(type) {
 	case *types.Basic:
@@ -472,27 +519,25 @@ func (tg *c08Target) model(t types.Type, a64 int64, trail bool) (size, al int64,
 		return w, w, nil
 	case *types.Slice:
 		return 3 * w, w, nil
-	case *types.Interface, *types.Signature:
+	case *types.Interface:
 		return 2 * w, w, nil
+	case *types.Signature:
+		return fw * w, w, nil
 	case *types.Array:
-		s, a, _ := tg.model(u.Elem(), a64, trail)
+		s, a, _ := tg.model(u.Elem(), a64, fw)
 		return s * u.Len(), a, nil
 	case *types.Struct:
-		var cur, last int64
+		var cur int64
 		al = 1
 		n := u.NumFields()
 		for i := 0; i < n; i++ {
-			s, a, _ := tg.model(u.Field(i).Type(), a64, trail)
+			s, a, _ := tg.model(u.Field(i).Type(), a64, fw)
 			cur = c08Align(cur, a)
 			offs = append(offs, cur)
 			cur += s
-			last = s
 			if a > al {
 				al = a
 			}
-		}
-		if trail && n > 0 && last == 0 && cur > 0 {
-			cur++
 		}
 		return c08Align(cur, al), al, offs
 	}
@@ -593,8 +638,11 @@ func (tg *c08Target) lOffs(t types.Type) []int64 {
 	}
 	return r
 }
-func (tg *c08Target) gSize(t types.Type) int64   { return tg.sizes.Sizeof(t) }
-func (tg *c08Target) gOffs(t types.Type) []int64 { return tg.sizes.Offsetsof(c08Fields(t)) }
+// go/types (wrapped) numbers of the RAW type of t: what abi.Builder gets when it asks b.Sizes
+func (tg *c08Target) gSize(t types.Type) int64 { return tg.sizes.Sizeof(tg.prog.Type(t, InGo).RawType()) }
+func (tg *c08Target) gOffs(t types.Type) []int64 {
+	return tg.sizes.Offsetsof(c08Fields(tg.prog.Type(t, InGo).RawType()))
+}
 
 // ---------------------------------------------------------------- reading emitted descriptors
 
@@ -768,25 +816,44 @@ func (tg *c08Target) layout(T types.Type) (o c08Layout) {
 	o.PCur = tg.ptrCur(T)
 
 	// models of the present behaviour
-	X := c08Expand(T, map[types.Type]types.Type{})
-	mgS, mgA := tg.std.Sizeof(X), tg.std.Alignof(X)
-	switch c08Under(X).(type) {
-	case *types.Struct, *types.Array:
-		mgS = c08Align(mgS, mgA)
+	//  G: the plain go/types Sizes on the type with func types expanded to two words; the PRESENT
+	//     wrapper does not look through aliases (gCur), the raw type never contains aliases (gRaw)
+	gm := func(through bool) (int64, int64, []int64) {
+		X := c08ExpandEx(T, map[types.Type]types.Type{}, through)
+		sz, al := tg.std.Sizeof(X), tg.std.Alignof(X)
+		switch c08Under(X).(type) {
+		case *types.Struct, *types.Array:
+			sz = c08Align(sz, al)
+		}
+		var of []int64
+		if o.isStruct {
+			// go/types hands Offsetsof the field list: an alias at the top is already resolved
+			of = tg.std.Offsetsof(c08Fields(c08ExpandEx(types.Unalias(T), map[types.Type]types.Type{}, through)))
+		}
+		return sz, al, of
 	}
-	var mgO []int64
-	if o.isStruct {
-		mgO = tg.std.Offsetsof(c08Fields(X))
+	mgS, mgA, mgO := gm(true)
+	mcS, mcA, mcO := gm(false)
+	aliasEffect := mgS != mcS || mgA != mcA || !c08Eq(mgO, mcO)
+	mlS, mlA, mlO := tg.model(T, tg.lla64, 2)
+	_, natA, _ := tg.model(T, 8, 2)
+	restOK := o.GSize == mcS && o.GAlign == mcA && c08Eq(o.GOffs, mcO) &&
+		o.RSize == mgS && o.RAlign == mgA && c08Eq(o.ROffs, mgO) &&
+		o.DSize == o.RSize && o.DAlign == natA && o.DFAlign == natA
+	o.modelOK = restOK && (o.DPtr == o.PG || o.DPtr == o.PCur) && o.LSize == mlS && o.LAlign == mlA && c08Eq(o.LOffs, mlO)
+	if restOK && !o.modelOK && c08RecursiveFuncMap(T) {
+		// LLVM lowered the UNCONVERTED named type (func fields one word) under the same name
+		if rS, rA, rO := tg.model(T, tg.lla64, 1); o.LSize == rS && o.LAlign == rA && c08Eq(o.LOffs, rO) {
+			o.modelOK = true
+			o.kclass = c08KRecur
+			return
+		}
 	}
-	mlS, mlA, mlO := tg.model(T, tg.lla64, false)
-	_, natA, _ := tg.model(T, 8, false)
-	o.modelOK = o.GSize == mgS && o.GAlign == mgA && c08Eq(o.GOffs, mgO) &&
-		o.RSize == o.GSize && o.RAlign == o.GAlign && c08Eq(o.ROffs, o.GOffs) &&
-		o.LSize == mlS && o.LAlign == mlA && c08Eq(o.LOffs, mlO) &&
-		o.DSize == o.GSize && o.DAlign == natA && o.DFAlign == natA && (o.DPtr == o.PG || o.DPtr == o.PCur)
 	trail := tg.gcRule && c08TrailingZS(T)
 	a8 := tg.word == 4 && c08Has8(T)
 	switch {
+	case aliasEffect:
+		o.kclass = c08KAlias
 	case trail && a8:
 		o.kclass = c08KBoth
 	case trail:
@@ -842,7 +909,11 @@ func (tg *c08Target) check(T types.Type, emitDesc bool) (res c08Result) {
 	}
 	// 2 wrapper consistency between the Go type and its raw (closure-converted) type
 	if o.RSize != o.GSize || o.RAlign != o.GAlign || !c08Eq(o.ROffs, o.GOffs) {
-		add("wrapper:gotype-vs-rawtype", "", "Sizeof/Alignof/Offsetsof on Go type = %d/%d/%v, on raw type = %d/%d/%v", o.GSize, o.GAlign, o.GOffs, o.RSize, o.RAlign, o.ROffs)
+		wcls := ""
+		if lay == c08KAlias {
+			wcls = lay
+		}
+		add("wrapper:gotype-vs-rawtype", wcls, "Sizeof/Alignof/Offsetsof on Go type = %d/%d/%v, on raw type = %d/%d/%v", o.GSize, o.GAlign, o.GOffs, o.RSize, o.RAlign, o.ROffs)
 	}
 	// 3 alignment
 	if o.GAlign != o.LAlign {
@@ -970,6 +1041,78 @@ func (tg *c08Target) check(T types.Type, emitDesc bool) (res c08Result) {
 	return
 }
 
+// c08RecursiveFuncMap: the layout of t includes a self-referential named struct N (its definition
+// mentions N again behind a pointer, slice, map, chan or func) that has a func-typed field.
+func c08RecursiveFuncMap(t types.Type) bool {
+	var mentions func(t types.Type, n *types.Named, seen map[types.Type]bool) bool
+	mentions = func(t types.Type, n *types.Named, seen map[types.Type]bool) bool {
+		if seen[t] {
+			return false
+		}
+		seen[t] = true
+		switch u := t.(type) {
+		case *types.Alias:
+			return mentions(types.Unalias(u), n, seen)
+		case *types.Named:
+			if u == n {
+				return true
+			}
+			return mentions(u.Underlying(), n, seen)
+		case *types.Pointer:
+			return mentions(u.Elem(), n, seen)
+		case *types.Slice:
+			return mentions(u.Elem(), n, seen)
+		case *types.Chan:
+			return mentions(u.Elem(), n, seen)
+		case *types.Array:
+			return mentions(u.Elem(), n, seen)
+		case *types.Map:
+			return mentions(u.Key(), n, seen) || mentions(u.Elem(), n, seen)
+		case *types.Signature:
+			for _, tup := range []*types.Tuple{u.Params(), u.Results()} {
+				for i := 0; i < tup.Len(); i++ {
+					if mentions(tup.At(i).Type(), n, seen) {
+						return true
+					}
+				}
+			}
+		case *types.Struct:
+			for i := 0; i < u.NumFields(); i++ {
+				if mentions(u.Field(i).Type(), n, seen) {
+					return true
+				}
+			}
+		}
+		return false
+	}
+	var walk func(t types.Type, seen map[*types.Named]bool) bool
+	walk = func(t types.Type, seen map[*types.Named]bool) bool {
+		switch u := t.(type) {
+		case *types.Alias:
+			return walk(types.Unalias(u), seen)
+		case *types.Named:
+			if seen[u] {
+				return false
+			}
+			seen[u] = true
+			if st, ok := u.Underlying().(*types.Struct); ok && c08LayoutHasFunc(st, map[types.Type]bool{}) && mentions(st, u, map[types.Type]bool{}) {
+				return true
+			}
+			return walk(u.Underlying(), seen)
+		case *types.Array:
+			return walk(u.Elem(), seen)
+		case *types.Struct:
+			for i := 0; i < u.NumFields(); i++ {
+				if walk(u.Field(i).Type(), seen) {
+					return true
+				}
+			}
+		}
+		return false
+	}
+	return walk(t, map[*types.Named]bool{})
+}
+
 // c08StdTailPad: (wasm, StdSizes) some struct/array nested in the layout has a size that is not a
 // multiple of its alignment in StdSizes' reading (StdSizes does not round struct sizes up).
 func c08StdTailPad(tg *c08Target, t types.Type) bool {
@@ -1020,6 +1163,14 @@ func c08Probes(g *c08Gen) (ts []types.Type, names []string) {
 	// C08-map-indirect-slot-size
 	add("probe-map-bigkey", types.NewMap(types.NewArray(i64, 17), types.Typ[types.Int]))
 	add("probe-map-bigelem", types.NewMap(types.Typ[types.Int], types.NewArray(i64, 40)))
+	// C08-alias-func-extra-size-lost
+	afs := types.NewStruct([]*types.Var{f("a", types.Typ[types.Uint32]), f("f", fn), f("b", types.Typ[types.Bool])}, nil)
+	add("probe-alias-func-struct", types.NewAlias(types.NewTypeName(token.NoPos, g.pkg, "AProbe1"+g.tag, nil), afs))
+	add("probe-field-after-alias", types.NewStruct([]*types.Var{f("x", types.NewAlias(types.NewTypeName(token.NoPos, g.pkg, "AProbe2"+g.tag, nil), afs)), f("y", i8)}, nil))
+	// C08-recursive-named-func-lowered-raw: descriptor of chan N needed before N is lowered
+	rn := types.NewNamed(types.NewTypeName(token.NoPos, g.pkg, "NProbeRec"+g.tag, nil), types.Typ[types.Int], nil)
+	rn.SetUnderlying(types.NewStruct([]*types.Var{f("r0", types.Typ[types.Uint8]), f("r1", fn), f("r2", types.NewMap(types.Typ[types.Int32], rn)), f("r3", types.Typ[types.Uint8])}, nil))
+	add("probe-chan-of-recursive", types.NewChan(types.SendRecv, rn))
 	// wasm StdSizes nested tail padding
 	add("probe-nested-tailpad", types.NewStruct([]*types.Var{f("s", types.NewStruct([]*types.Var{f("a", types.Typ[types.Int32]), f("b", i8)}, nil)), f("c", i8)}, nil))
 	return
@@ -1167,7 +1318,7 @@ func TestVerifC08(t *testing.T) {
 				}
 				for _, is := range res.issues {
 					cls := is.class
-					ts := types.TypeString(T, func(*types.Package) string { return "" })
+					ts := c08Str(T)
 					sum := fmt.Sprintf("%s on %s: %s  [%s]  type %s", id, arch, is.detail, is.check, ts)
 					if strings.HasPrefix(cls, "known:") {
 						mu.Lock()
